@@ -278,12 +278,14 @@ def gen_nested(seed):
         "plain/n.txt": "n",
         "empty/": None,
         ".proxies/cam1/p1.txt": "p1",
+        "CamA/Clips/ca.mov": "ca",
+        "CamB/Clips/cb.mov": "cb",
         ".proxies/h.txt": "hidden folder file",
     }
     for k in list(tree):
         if rnd.random() < 0.15 and k not in ("top.txt",):
             del tree[k]
-    cands = ["A", "A/X", "A/X/Y", "A/X/Y/Z", "AB", "Clips", "Reel1", "AB/A", ".proxies/cam1"]
+    cands = ["A", "A/X", "A/X/Y", "A/X/Y/Z", "AB", "Clips", "Reel1", "AB/A", ".proxies/cam1", "CamA/Clips", "CamB/Clips"]
     dirs = set()
     for k in tree:
         parts = k.rstrip("/").split("/")
